@@ -831,7 +831,10 @@ impl Point {
             let v = x & m & 31;              // low 5 bits if x odd, or 0
             let c = (v & 16) << 1;           // carry (0 or 32)
             sd[i] = v.wrapping_sub(c) as i8;
-            y = y.wrapping_sub(v as u128).wrapping_add(c as u128) >> 1;
+            // y - v + c may reach 2^128 (first iteration, n >= 2^128 - 15):
+            // keep the carry.
+            let (t, cc) = y.wrapping_sub(v as u128).overflowing_add(c as u128);
+            y = (t >> 1) | ((cc as u128) << 127);
         }
         sd
     }
